@@ -1,10 +1,12 @@
 //! ktmc - model-checking harness for kmertools (links the real crates from /repo).
 mod ctx;
 mod enumr;
+mod files;
 mod iters;
 mod model;
 mod out;
 mod sched;
+mod vecs;
 
 use ctx::{Ctx, Tier};
 use enumr::Shard;
@@ -64,6 +66,13 @@ fn real_main(args: &[String], scratch: &str) -> i32 {
                 "C02" => iters::c02(&mut ctx),
                 "C09" => iters::c09(&mut ctx),
                 "C18" => iters::c18(&mut ctx),
+                "C03" => vecs::c03(&mut ctx),
+                "C04" => vecs::c04(&mut ctx),
+                "C11" => vecs::c11(&mut ctx),
+                "C12" => vecs::c12(&mut ctx),
+                "C06" => files::c06(&mut ctx),
+                "C07cfg" => files::c07_configs(&mut ctx),
+                "C08" => files::c08(&mut ctx),
                 other => {
                     eprintln!("unknown check {}", other);
                     return 2;
@@ -83,6 +92,8 @@ fn real_main(args: &[String], scratch: &str) -> i32 {
             };
             match args[2].as_str() {
                 "C01" | "C02code" | "C02stream" | "C09" | "C18" => iters::replay(&mut ctx, &args[2..]),
+                "C03" | "C04" | "C04file" | "C11" | "C11long" | "C11file" | "C12" => vecs::replay(&mut ctx, &args[2..]),
+                "C06" | "C06long" | "C07" | "C08" | "C08one" | "C08direct" => files::replay(&mut ctx, &args[2..]),
                 other => {
                     eprintln!("unknown case kind {}", other);
                     return 2;
